@@ -141,6 +141,16 @@ def run(ctx):
             return d
         acases.append({"enz": enz["name"], "vector": {"cls": gens.generic_spec("vector", enz), "seq": spoil(ch["vector"]["seq"])},
                        "modules": [elem(s) for s in mods]})
+    # a kit vector (a levelled EntryVector / CassetteVector / DeviceVector type) receiving modules typed by a plain
+    # generic module class of the same enzyme (a direct AbstractModule subclass, no level, no signature), valid or spoiled
+    from harness.props import C11
+    for c in C11.gen_cases(ctx)[: (24 if ctx.quick else 200)]:
+        enz_name = next((k["cutter"]["name"] for k in ctx.tables["classes"] if k["name"] == c["vector"]["cls"]["name"]), None)
+        if enz_name is None or enz_name not in byenz:
+            continue
+        gm = gens.generic_spec("module", byenz[enz_name])
+        mods = [{"cls": gm, "seq": (m["seq"] if rng.random() < 0.8 else m["seq"][:-3])} for m in c["modules"]]
+        acases.append({"enz": enz_name, "vector": c["vector"], "modules": mods, "tag": "kit-vector-with-generic-modules"})
     aobs = common.run_impl(ctx, "C17", "impl_assembly", acases)
     aterms = []
     for c, o in zip(acases, aobs):
